@@ -199,20 +199,24 @@ def sym_rollup(ctx, cfg):
     world.rebind(R, np=symnp, pa=vfs.pa_stub)
     world.rebind(S, np=symnp, pd=sympd, pa=vfs.pa_stub)
     vfs.reset()
-    rows = []  # (id, is_target, pep, score)
+    modcol = bool(cfg.get("modcol"))
+    rows = []  # (id, is_target, pep, score, mod)
     sizes = cfg["sizes"]  # per source run: (n_targets, n_decoys)
     for f, (nt, nd) in enumerate(sizes):
         for kind, n in (("targets", nt), ("decoys", nd)):
             zs = [z3.Real("s_%d_%s_%d" % (f, kind, i)) for i in range(n)]
             zp = [z3.Int("p_%d_%s_%d" % (f, kind, i)) for i in range(n)]
+            zm = [z3.Int("m_%d_%s_%d" % (f, kind, i)) for i in range(n)]
             for a, b in zip(zs, zs[1:]):
                 ctx.assume(a >= b)  # result files of assign_confidence are sorted by score
             ids = ["run%d_%s_%d" % (f, kind, i) for i in range(n)]
-            df = sympd.DataFrame({"PSMId": ids, "peptide": [SNum(z) for z in zp], "score": [SNum(z) for z in zs], "q-value": [0.5] * n,
-                                  "posterior_error_prob": [0.5] * n, "proteinIds": ["prot_" + x for x in ids]})
+            cols = {"PSMId": ids, "peptide": [SNum(z) for z in zp]}
+            if modcol:
+                cols["ModifiedPeptide"] = [SNum(z) for z in zm]
+            cols.update({"score": [SNum(z) for z in zs], "q-value": [0.5] * n, "posterior_error_prob": [0.5] * n, "proteinIds": ["prot_" + x for x in ids]})
             if n:
-                vfs.put(vfs.VPath("/vfs/src/run%d.%s.psms" % (f, kind)), df)
-            rows += [(ids[i], kind == "targets", zp[i], zs[i]) for i in range(n)]
+                vfs.put(vfs.VPath("/vfs/src/run%d.%s.psms" % (f, kind)), sympd.DataFrame(cols))
+            rows += [(ids[i], kind == "targets", zp[i], zs[i], zm[i]) for i in range(n)]
     conf = _Cfg()
     conf.level, conf.src_dir, conf.dest_dir, conf.file_root = "psm", vfs.VPath("/vfs/src"), vfs.VPath("/vfs/dst"), "rollup"
     conf.qvalue_algorithm, conf.peps_algorithm = "tdc", "qvality"
@@ -220,7 +224,7 @@ def sym_rollup(ctx, cfg):
     R.peps_from_scores = pr
     real_tdc = Q.__dict__["tdc"]
     Q.__dict__["tdc"] = tdc_by_spec(ctx)
-    inputs = dict(rows=[dict(id=r[0], target=r[1], peptide=SNum(r[2]), score=SNum(r[3])) for r in rows], sizes=sizes)
+    inputs = dict(rows=[dict(id=r[0], target=r[1], peptide=SNum(r[2]), score=SNum(r[3]), mod=SNum(r[4])) for r in rows], sizes=sizes, modcol=modcol)
     try:
         R.do_rollup(conf)
     except Unsupported:
@@ -232,32 +236,32 @@ def sym_rollup(ctx, cfg):
     finally:
         Q.__dict__["tdc"] = real_tdc
     props = []
-    tf, dfile = vfs.get("/vfs/dst/rollup.targets.peptides"), vfs.get("/vfs/dst/rollup.decoys.peptides")
-    props.append(("rollup_files_written", z3.BoolVal(tf is not None and dfile is not None)))
-    if tf is None or dfile is None:
-        return PathOutcome(props, inputs, None)
     idx = {r[0]: k for k, r in enumerate(rows)}
-    got = []
-    for name, tab, is_t in (("targets", tf, True), ("decoys", dfile, False)):
-        prev = None
-        for r in tab.to_dict(orient="records"):
-            k = idx.get(r.get("psm_id"))
-            props.append(("%s_row_is_an_input_row" % name, z3.BoolVal(k is not None and rows[k][1] == is_t)))
-            if k is None:
-                continue
-            props.append(("row_%s_fields" % rows[k][0], z3.And(core._z(r["peptide"]) == rows[k][2], core._z(r["score"]) == rows[k][3], z3.BoolVal(r["proteinIds"] == "prot_" + rows[k][0]))))
-            if prev is not None:
-                props.append(("%s_sorted" % name, rows[prev][3] >= rows[k][3]))
-            prev = k
-            got.append((k, r))
-    ks = [k for k, _ in got]
-    s = dict(score=[r[3] for r in rows], pep=[r[2] for r in rows], scan=[r[2] for r in rows], mass=[r[2] for r in rows], mod=[r[2] for r in rows])
-    props += conflib.level_oracle(s, "peptides", ks, list(range(len(rows))))
-    if ks and len(set(ks)) == len(ks):
-        qs = spec.spec_q_terms([rows[k][3] for k in ks], [z3.BoolVal(rows[k][1]) for k in ks], True)
-        for (k, r), q in zip(got, qs):
-            props.append(("row_%s_qvalue_on_retained_rows" % rows[k][0], core._z(r["q_value"]) == q))
-    left = [p for p in vfs.listing() if "temp" in p]
+    s = dict(score=[r[3] for r in rows], pep=[r[2] for r in rows], scan=[r[2] for r in rows], mass=[r[2] for r in rows], mod=[r[4] for r in rows])
+    for fname, level, col in ([("modified_peptides", "modifiedpeptides", "modified_peptide")] if modcol else []) + [("peptides", "peptides", "peptide")]:
+        tf, dfile = vfs.get("/vfs/dst/rollup.targets.%s" % fname), vfs.get("/vfs/dst/rollup.decoys.%s" % fname)
+        props.append(("%s_rollup_files_written" % fname, z3.BoolVal(tf is not None and dfile is not None)))
+        if tf is None or dfile is None:
+            continue
+        got = []
+        for name, tab, is_t in (("targets", tf, True), ("decoys", dfile, False)):
+            prev = None
+            for r in tab.to_dict(orient="records"):
+                k = idx.get(r.get("psm_id"))
+                props.append(("%s_%s_row_is_an_input_row" % (fname, name), z3.BoolVal(k is not None and rows[k][1] == is_t)))
+                if k is None:
+                    continue
+                props.append(("%s_row_%s_fields" % (fname, rows[k][0]), z3.And(core._z(r["peptide"]) == rows[k][2], core._z(r["score"]) == rows[k][3], z3.BoolVal(r["proteinIds"] == "prot_" + rows[k][0]))))
+                if prev is not None:
+                    props.append(("%s_%s_sorted" % (fname, name), rows[prev][3] >= rows[k][3]))
+                prev = k
+                got.append((k, r))
+        ks = [k for k, _ in got]
+        props += [("%s_%s" % (fname, n_), p_) for n_, p_ in conflib.level_oracle(s, level, ks, list(range(len(rows))))]
+        if ks and len(set(ks)) == len(ks):
+            qs = spec.spec_q_terms([rows[k][3] for k in ks], [z3.BoolVal(rows[k][1]) for k in ks], True)
+            for (k, r), q in zip(got, qs):
+                props.append(("%s_row_%s_qvalue_on_retained_rows" % (fname, rows[k][0]), core._z(r["q_value"]) == q))
     return PathOutcome(props, inputs, None)
 
 
@@ -291,8 +295,10 @@ def harnesses(tier):
     from symx import world
     R = world.mod("mokapot.brew_rollup")
     S = world.mod("mokapot.streaming")
-    for sizes in ([[(1, 1), (1, 1)], [(2, 1)], [(2, 0), (0, 2)]] if tier == "quick" else [[(2, 1), (1, 1)], [(2, 2)], [(1, 1), (1, 1), (1, 0)], [(3, 0), (0, 2)]]):
-        hs.append(Harness("rollup%s" % sizes, dict(sizes=[list(x) for x in sizes]), sym_rollup, real="rollup", functions=[R.do_rollup, R.compute_rollup_levels, S.MergedTabularDataReader.get_row_iterator,
+    rl = [([(1, 1), (1, 1)], False), ([(2, 1)], False), ([(2, 0), (0, 2)], False), ([(2, 1)], True), ([(1, 1), (1, 0)], True)] if tier == "quick" else \
+        [([(2, 1), (1, 1)], False), ([(2, 2)], False), ([(1, 1), (1, 1), (1, 0)], False), ([(3, 0), (0, 2)], False), ([(2, 1), (1, 0)], True), ([(2, 2)], True)]
+    for sizes, modcol in rl:
+        hs.append(Harness("rollup%s%s" % (sizes, ",two level columns" if modcol else ""), dict(sizes=[list(x) for x in sizes], modcol=modcol), sym_rollup, real="rollup", functions=[R.do_rollup, R.compute_rollup_levels, S.MergedTabularDataReader.get_row_iterator,
                           S.ComputedTabularDataReader.get_chunked_data_iterator, T.ColumnMappedReader.get_chunked_data_iterator, T.BufferedWriter.append_data],
                           bounds=dict(source_files=sizes), stubs=stubs, assumptions=["source result files are sorted by score (as assign_confidence writes them)", "base level psm, rollup to peptide"], sample_rate=0.1))
     for n in ((3,) if tier == "quick" else (3, 4)):
@@ -478,6 +484,7 @@ def real_rollup(cfg, inp):
     from checks import spec
     R = __import__("importlib").import_module("mokapot.brew_rollup")
     rows = inp["rows"]
+    modcol = bool(inp.get("modcol"))
     with tempfile.TemporaryDirectory(prefix="verif_c03r_") as d:
         src, dst = Path(d) / "src", Path(d) / "dst"
         src.mkdir()
@@ -486,8 +493,11 @@ def real_rollup(cfg, inp):
             for kind in ("targets", "decoys"):
                 rs = [r for r in rows if r["id"].startswith("run%d_%s_" % (f, kind))]
                 if rs:
-                    pd.DataFrame({"PSMId": [r["id"] for r in rs], "peptide": ["PEP%d" % int(r["peptide"]) for r in rs], "score": [float(r["score"]) for r in rs],
-                                  "q-value": [0.5] * len(rs), "posterior_error_prob": [0.5] * len(rs), "proteinIds": ["prot_" + r["id"] for r in rs]}).to_csv(src / ("run%d.%s.psms" % (f, kind)), sep="\t", index=False)
+                    cols = {"PSMId": [r["id"] for r in rs], "peptide": ["SEQ%d" % int(r["peptide"]) for r in rs]}
+                    if modcol:
+                        cols["ModifiedPeptide"] = ["SEQ%d" % int(r["mod"]) for r in rs]
+                    cols.update({"score": [float(r["score"]) for r in rs], "q-value": [0.5] * len(rs), "posterior_error_prob": [0.5] * len(rs), "proteinIds": ["prot_" + r["id"] for r in rs]})
+                    pd.DataFrame(cols).to_csv(src / ("run%d.%s.psms" % (f, kind)), sep="\t", index=False)
         conf = _Cfg()
         conf.level, conf.src_dir, conf.dest_dir, conf.file_root = "psm", src, dst, "rollup"
         conf.qvalue_algorithm, conf.peps_algorithm = "tdc", "qvality"
@@ -500,35 +510,36 @@ def real_rollup(cfg, inp):
         finally:
             R.peps_from_scores = old
         byid = {r["id"]: r for r in rows}
-        got = []
-        for kind, is_t in (("targets", True), ("decoys", False)):
-            p = dst / ("rollup.%s.peptides" % kind)
-            if not p.exists():
-                return dict(violation="%s not written" % p.name)
-            t = pd.read_csv(p, sep="\t")
-            prev = None
-            for _, r in t.iterrows():
-                src_row = byid.get(r["psm_id"])
-                if src_row is None or bool(src_row["target"]) != is_t:
-                    return dict(violation="%s holds %r" % (p.name, r["psm_id"]))
-                if str(r["peptide"]) != "PEP%d" % int(src_row["peptide"]) or abs(float(r["score"]) - float(src_row["score"])) > 1e-9 or r["proteinIds"] != "prot_" + src_row["id"]:
-                    return dict(violation="row of %s modified: %s" % (r["psm_id"], dict(r)))
-                if prev is not None and prev < float(r["score"]):
-                    return dict(violation="%s not sorted" % p.name)
-                prev = float(r["score"])
-                got.append((src_row, float(r["q_value"])))
-    peps = {}
-    for r in rows:
-        peps.setdefault(int(r["peptide"]), []).append(r)
-    if len(got) != len(peps):
-        return dict(violation="%d rows for %d distinct peptides" % (len(got), len(peps)))
-    for r, _ in got:
-        if float(r["score"]) < max(float(x["score"]) for x in peps[int(r["peptide"])]):
-            return dict(violation="%s is not the best row of its peptide" % r["id"])
-    q = spec.conc_q([Fraction(float(r["score"])) for r, _ in got], [bool(r["target"]) for r, _ in got], True)
-    for (r, qv), qe in zip(got, q):
-        if abs(qv - float(qe)) > 2e-6:
-            return dict(violation="q-value of %s is %r, formula on retained rows gives %s" % (r["id"], qv, qe))
+        for fname, key in ([("modified_peptides", "mod")] if modcol else []) + [("peptides", "peptide")]:
+            got = []
+            for kind, is_t in (("targets", True), ("decoys", False)):
+                p = dst / ("rollup.%s.%s" % (kind, fname))
+                if not p.exists():
+                    return dict(violation="%s not written" % p.name)
+                t = pd.read_csv(p, sep="\t")
+                prev = None
+                for _, r in t.iterrows():
+                    src_row = byid.get(r["psm_id"])
+                    if src_row is None or bool(src_row["target"]) != is_t:
+                        return dict(violation="%s holds %r" % (p.name, r["psm_id"]))
+                    if str(r["peptide"]) != "SEQ%d" % int(src_row["peptide"]) or abs(float(r["score"]) - float(src_row["score"])) > 1e-9 or r["proteinIds"] != "prot_" + src_row["id"]:
+                        return dict(violation="%s: row of %s modified: %s" % (p.name, r["psm_id"], dict(r)))
+                    if prev is not None and prev < float(r["score"]):
+                        return dict(violation="%s not sorted" % p.name)
+                    prev = float(r["score"])
+                    got.append((src_row, float(r["q_value"])))
+            ents = {}
+            for r in rows:
+                ents.setdefault(int(r[key]), []).append(r)
+            if len(got) != len(ents):
+                return dict(violation="%s level: %d rows for %d distinct entities (%s)" % (fname, len(got), len(ents), [g["id"] for g, _ in got]))
+            for r, _ in got:
+                if float(r["score"]) < max(float(x["score"]) for x in ents[int(r[key])]):
+                    return dict(violation="%s level: %s is not the best row of its entity" % (fname, r["id"]))
+            q = spec.conc_q([Fraction(float(r["score"])) for r, _ in got], [bool(r["target"]) for r, _ in got], True)
+            for (r, qv), qe in zip(got, q):
+                if abs(qv - float(qe)) > 2e-6:
+                    return dict(violation="%s level: q-value of %s is %r, formula on retained rows gives %s" % (fname, r["id"], qv, qe))
     return dict(outputs=None, violation=None)
 
 
